@@ -137,7 +137,8 @@ def face_basis(ctx, g, dims, term, prop, only_axis=None):
                 ctx.eq('%s/row/%s/%s' % (tag, fn, '_'.join(map(str, cc))),
                        scen.matvec_row(rows, r, pv, ctx), ch[r])
             # rows not adjacent to the face carry nothing (matrix) and nothing (chain)
-            stray = [cc for cc in int_rows if cc not in (lo, hi)]
+            stray = [cc for cc in int_rows if cc not in (lo, hi)
+                     and any(not ctx.is_zero_term(v) for _, v in rows[int(G[cc])])]
             ctx.fact('%s/nostray/%s' % (tag, fn), not stray, 'matrix entries in non-adjacent rows %s' % stray[:3])
         elif prop == 'C06':
             ones = [kconst] * len(pv)
